@@ -146,6 +146,9 @@ class RecInterp(itereval.IterInterp):
             return super().eval(e2, scope)
         return super().eval(e, env)
 
+    def struct_expr(self, name, fields, node):
+        return Rec(fields)
+
     def call_method(self, fn, args):
         env = Env()
         ps = [p_ for p_ in fn["sig"]["inputs"] if p_["t"] == "Arg"]
